@@ -1,5 +1,7 @@
 """Engines, budgets, merging, verdicts. See DESIGN.md sections 1, 1.4, 5.2, 6."""
-import fnmatch, glob, hashlib, json, os, shutil, subprocess, sys, time
+import fnmatch, glob, hashlib, json, os, shutil, subprocess, sys, threading, time
+sys.path.insert(0, os.path.dirname(os.path.abspath(__file__)))
+import sanit
 
 VERIF   = os.path.dirname(os.path.dirname(os.path.abspath(__file__)))
 HARNESS = os.path.join(VERIF, 'harness')
@@ -36,13 +38,16 @@ ASSUMPTIONS = [
  "workload legitimacy rules of DESIGN.md section 0/2 (no self-nested sync, nested blocking only towards higher-numbered objects with pool >= objects, every gate fired, ...)",
 ]
 
-# engine budgets: seconds of wall clock for the native engine and process count
+# engine budgets (seconds of wall clock, process counts). The engines of one check run concurrently on the 16 cores.
 BUDGET = {
-  'quick':    dict(native_s=40, procs=8, proc_ms=8000),
-  'thorough': dict(native_s=420, procs=12, proc_ms=20000),
+  'quick':    dict(native_s=40, native_procs=7, proc_ms=8000, miri_s=45, miri_procs=6, asan_s=30, asan_procs=2),
+  'thorough': dict(native_s=480, native_procs=8, proc_ms=20000, miri_s=480, miri_procs=5, asan_s=200, asan_procs=2, tsan_s=200, tsan_procs=2, memcheck_s=200, memcheck_procs=2),
 }
 FAMILIES = ['mix', 'mix', 'uniform', 'none', 'mix', 'onebig', 'uniform', 'mix']
-
+ASAN_PROPS = {'C05', 'C08', 'C11', 'C14'}
+TSAN_PROPS = {'C01', 'C14'}
+MEMCHECK_PROPS = {'C05', 'C14'}
+NO_MIRI = set()
 
 def log(*a):
     print('[check]', *a, flush=True)
@@ -62,7 +67,11 @@ def build_native():
 
 
 def setup():
-    return 0 if build_native() else 2
+    ok = build_native() is not None
+    ok = sanit.build_miri() and ok
+    ok = (sanit.build_asan(True) is not None) and ok
+    ok = (sanit.build_asan(False) is not None) and ok
+    return 0 if ok else 2
 
 
 def load_known():
@@ -78,47 +87,60 @@ def known_match(known, prop, sig):
     return None
 
 
-def run_native(dh, prop, tier, seed, out_dir, budget_s, procs, proc_ms, families=FAMILIES, extra=None):
+def run_native(dh, prop, tier, seed, out_dir, budget_s, procs, proc_ms, families=FAMILIES, extra=None, env=None, tool=None, prefix='n', wrapper=None):
     """Keeps `procs` harness processes running (fresh seed each) until the wall budget is used. A process ends at its own budget
-    or at the first stuck run (its threads are wedged); the next one starts with another seed."""
+    or at the first stuck run (its threads are wedged); the next one starts with another seed. With `tool` set (asan, tsan,
+    memcheck) stderr is kept and scanned for that tool's reports."""
     os.makedirs(out_dir, exist_ok=True)
     t_end = time.time() + budget_s
     running = {}
     results, k = [], 0
     inconclusive = []
+    tool_violations = []
     while True:
         now = time.time()
         while len(running) < procs and now < t_end - 1.0:
             ms = int(min(proc_ms, max(1000, (t_end - now) * 1000)))
-            out = os.path.join(out_dir, 'n%04d.json' % k)
+            out = os.path.join(out_dir, '%s%04d.json' % (prefix, k))
             if os.path.exists(out): os.remove(out)
             fam = families[k % len(families)]
-            cmd = [dh, '--profile', prop, '--seed', str(seed * 1000003 + k), '--budget-ms', str(ms), '--noise', fam, '--out', out, '--watchdog-s', '60']
+            pseed = seed * 1000003 + k + (0 if not tool else 500009 * (1 + ['asan', 'asan-nohooks', 'tsan', 'memcheck'].index(tool)))
+            cmd = (wrapper or []) + [dh, '--profile', prop, '--seed', str(pseed), '--budget-ms', str(ms), '--noise', fam, '--out', out, '--watchdog-s', '60']
             if extra: cmd += extra
-            p = subprocess.Popen(cmd, stdout=subprocess.PIPE, stderr=subprocess.STDOUT, text=True)
-            running[p.pid] = (p, out, time.time(), ms, k, fam)
+            errf = open(os.path.join(out_dir, '%s%04d.stderr.txt' % (prefix, k)), 'w') if tool else subprocess.STDOUT
+            p = subprocess.Popen(cmd, stdout=subprocess.PIPE, stderr=errf, text=True, env=env)
+            running[p.pid] = (p, out, time.time(), ms, k, fam, pseed)
             k += 1
         if not running: break
         time.sleep(0.05)
         for pid in list(running):
-            p, out, started, ms, idx, fam = running[pid]
+            p, out, started, ms, idx, fam, pseed = running[pid]
             rc = p.poll()
             if rc is None:
-                if time.time() - started > ms / 1000.0 + 20:
+                if time.time() - started > ms / 1000.0 * (12 if tool == 'memcheck' else 1) + 150:
                     p.kill(); p.wait(); del running[pid]
-                    inconclusive.append('process %d (family %s) exceeded its budget by 150 s and was killed (watchdog): inconclusive' % (idx, fam)); log('KILLED', ' '.join(p.args))
+                    inconclusive.append('%s process %d (family %s) exceeded its budget by 150 s and was killed (watchdog): inconclusive' % (tool or 'native', idx, fam))
                 continue
             del running[pid]
             txt = p.stdout.read() if p.stdout else ''
             if rc == 2:
                 log('HARNESS ERROR in process %d:' % idx, txt[-2000:])
-                return None, ['harness error']
+                return None, ['harness error'], []
+            d = None
             if os.path.exists(out):
-                try: results.append(json.load(open(out)))
+                try: d = json.load(open(out)); results.append(d)
                 except Exception as e: inconclusive.append('process %d: unreadable output (%s)' % (idx, e))
-            else:
+            elif not tool:
                 inconclusive.append('process %d exited with code %s and no output: %s' % (idx, rc, txt[-300:].replace('\n', ' | ')))
-    return results, inconclusive
+            if tool:
+                errpath = os.path.join(out_dir, '%s%04d.stderr.txt' % (prefix, idx))
+                text = open(errpath, errors='replace').read()
+                for (vp, kind, sig, detail) in sanit.classify_sanitizer(text, 'asan' if tool.startswith('asan') else tool):
+                    tool_violations.append(dict(property=vp, kind=kind, signature=sig, detail=detail, profile=prop, seed=pseed, run_index=0, noise_family=fam, engine=tool, stderr_file=errpath,
+                                                run=dict(run_index=0, noise_plan=fam, outcome='sanitizer report', program={}, diagnosis=text[:8000].split('\n')[:120])))
+                if d is None and not text.strip(): inconclusive.append('%s process %d exited with code %s and no output' % (tool, idx, rc))
+                if d is None and text.strip() and not sanit.SAN_RE.search(text): inconclusive.append('%s process %d died without a report: %s' % (tool, idx, text[-200:].replace('\n', ' | ')))
+    return results, inconclusive, tool_violations
 
 
 def merge(results):
@@ -200,16 +222,75 @@ def run_check(prop, tier, seed):
     if prop not in RULES:
         log('unknown property', prop); return 2
     t0 = time.time()
-    dh = build_native()
-    if not dh: return 2
     b = BUDGET[tier]
     out_dir = os.path.join(BUILD, 'run', prop)
     shutil.rmtree(out_dir, ignore_errors=True)
-    results, inconclusive = run_native(dh, prop, tier, seed, out_dir, b['native_s'], b['procs'], b['proc_ms'])
-    if results is None: return 2
-    m = merge(results)
-    notes = ['E1 native: %d processes, noise families %s' % (len(results), sorted(set(FAMILIES)))]
-    return finish(prop, tier, seed, t0, m, {}, inconclusive, notes)
+    os.makedirs(out_dir, exist_ok=True)
+    only = os.environ.get('VERIF_ENGINES')           # e.g. "native,miri" to restrict (debugging aid)
+    want = lambda e: (not only) or e in only.split(',')
+
+    # builds first (incremental; they rebuild from /repo's working tree)
+    bins = {}
+    if want('native'):
+        bins['native'] = build_native()
+        if not bins['native']: return 2
+    use_miri = want('miri') and prop not in NO_MIRI
+    if use_miri and not sanit.build_miri(): return 2
+    use_asan = want('asan') and prop in ASAN_PROPS
+    if use_asan:
+        bins['asan'] = sanit.build_asan(True)
+        if not bins['asan']: return 2
+        if prop == 'C14':
+            bins['asan-nohooks'] = sanit.build_asan(False)
+            if not bins['asan-nohooks']: return 2
+    use_tsan = want('tsan') and tier == 'thorough' and prop in TSAN_PROPS
+    if use_tsan:
+        bins['tsan'] = sanit.build_tsan()
+        if not bins['tsan']: return 2
+    use_memcheck = want('memcheck') and tier == 'thorough' and prop in MEMCHECK_PROPS and shutil.which('valgrind')
+
+    res = {}
+    def job(name, fn):
+        try: res[name] = fn()
+        except Exception as e:
+            import traceback; traceback.print_exc(); res[name] = ('error', str(e))
+    jobs = []
+    if want('native'):
+        jobs.append(('native', lambda: run_native(bins['native'], prop, tier, seed, out_dir, b['native_s'], b['native_procs'], b['proc_ms'])))
+    if use_miri:
+        jobs.append(('miri', lambda: sanit.run_miri(prop, seed, out_dir, b['miri_s'], b['miri_procs'], log)))
+    if use_asan:
+        aenv = dict(os.environ, ASAN_OPTIONS='detect_leaks=0:halt_on_error=1:abort_on_error=0:symbolize=1')
+        jobs.append(('asan', lambda: run_native(bins['asan'], prop, tier, seed, out_dir, b['asan_s'], b['asan_procs'], b['proc_ms'], env=aenv, tool='asan', prefix='a')))
+        if 'asan-nohooks' in bins:
+            jobs.append(('asan-nohooks', lambda: run_native(bins['asan-nohooks'], prop, tier, seed, out_dir, b['asan_s'], b['asan_procs'], b['proc_ms'], families=['off'], env=aenv, tool='asan-nohooks', prefix='b')))
+    if use_tsan:
+        tenv = dict(os.environ, TSAN_OPTIONS='halt_on_error=0:exitcode=0:report_signal_unsafe=0')
+        jobs.append(('tsan', lambda: run_native(bins['tsan'], prop, tier, seed, out_dir, b['tsan_s'], b['tsan_procs'], b['proc_ms'], env=tenv, tool='tsan', prefix='t')))
+    if use_memcheck:
+        wrap = ['valgrind', '-q', '--error-exitcode=0', '--fair-sched=yes', '--num-callers=30']
+        jobs.append(('memcheck', lambda: run_native(bins['native'], prop, tier, seed, out_dir, b['memcheck_s'], b['memcheck_procs'], 15000, families=['none', 'uniform'], tool='memcheck', prefix='v', wrapper=wrap, extra=['--watchdog-s', '600'])))
+    threads = [threading.Thread(target=job, args=j) for j in jobs]
+    for t in threads: t.start()
+    for t in threads: t.join()
+
+    all_results, inconclusive, notes, extra_viol = [], [], [], []
+    per_engine = {}
+    for name, _ in jobs:
+        r = res.get(name)
+        if r is None or r[0] is None or r[0] == 'error':
+            log('engine %s failed: %s' % (name, r)); return 2
+        results, inc, viol = r
+        per_engine[name] = dict(processes=len(results), program_runs=sum(d.get('evaluations', 0) for d in results), reports=len(viol))
+        all_results += results; inconclusive += inc; extra_viol += viol
+    if any(v['property'] == 'HARNESS' for v in extra_viol):
+        for v in extra_viol:
+            if v['property'] == 'HARNESS': log('harness/tool error:', v['detail'])
+        return 2
+    m = merge(all_results)
+    m['violations'] += extra_viol
+    notes = ['%s: %s' % (k, v) for k, v in per_engine.items()]
+    return finish(prop, tier, seed, t0, m, dict(per_engine=per_engine), inconclusive, notes)
 
 
 def replay(path):
